@@ -66,7 +66,13 @@ func newIsSquareProofStructure(N *big.Int, Squares []*big.Int) isSquareProofStru
 
 	// Copy values of squares and make pedersen structures for them
 	for i, val := range Squares {
-		result.squares[i] = new(big.Int).Set(val)
+		// (as residues modulo N: the values serve as exponents in the proof group, which refuses
+		// exponents beyond its order, and a key file may carry a base that is not reduced)
+		if N.Sign() > 0 {
+			result.squares[i] = new(big.Int).Mod(val, N)
+		} else {
+			result.squares[i] = new(big.Int).Set(val)
+		}
 		result.squaresPedersen[i] = newPedersenStructure(strings.Join([]string{"s", fmt.Sprintf("%v", i)}, "_"))
 	}
 
